@@ -34,7 +34,13 @@ problem => a broken obligation of C17):
                `collections.defaultdict(lambda: <literal | slice(0)>)`, `itertools.combinations(xs, 2)`, `itertools.tee(xs)`,
                `m.shape`, `m.shape[0]`, `m[q, s]` + `.toarray()` + `.ravel()` on a sparse matrix,
                `a / b`: exact when `b` is a declared-positive parameter (or a non-zero literal), else `Mir.PyH.divF`
-               (ZeroDivisionError); calls of other translated functions of hierarchy.py (positional / keyword).
+               (ZeroDivisionError); calls of other translated functions of hierarchy.py (positional / keyword);
+               interval arrays: `np.asarray(x)`, `np.mod(t, float(p))` for a declared-positive p (number or array),
+               `a - b`, `a / p`, `.astype(int)` (frame indices, truncation), `min(xs)` / `max(xs)` (ValueError when empty),
+               `list(itertools.chain(*list(itertools.chain(*H))))`, `scipy.sparse.lil_matrix((n, n), dtype=np.uint8)`
+               (ValueError for n < 0), `M[s, s'] = level` with slices of integer bounds on a matrix the function built,
+               `.tocsr()`.  A parameter documented `number or ndarray` (`_round`) gives one definition per kind that is used
+               (`_round` for numbers, `_round_nd` for (n, 2) arrays).
 
 `python harness/translate/hierarchy.py [repo]` prints the generated file.
 """
@@ -53,7 +59,7 @@ except ImportError:  # run as a script
     from translate.segindex import Unsupported, ident, indent, lean_rat, dotted, assigned_names
 
 # functions of mir_eval/hierarchy.py, in emission order; REQUIRED: one that leaves the subset is a translator problem
-WANTED = ["_count_inversions", "_compare_frame_rankings", "_gauc"]
+WANTED = ["_count_inversions", "_compare_frame_rankings", "_gauc", "_round", "_hierarchy_bounds", "_lca"]
 
 NAT, INT, RAT, BOOL, UNIT = ("nat",), ("int",), ("rat",), ("bool",), ("unit",)
 SLICE, ISLICE, MAT, ROW = ("slice",), ("islice",), ("mat",), ("row",)
@@ -87,8 +93,17 @@ DECL = {
     "_gauc": [("ref_lca", MAT, r"scipy\.sparse"), ("est_lca", MAT, r"scipy\.sparse"), ("transitive", BOOL, r"bool"),
               ("window", OPT(NAT), r"number or None")],
 }
+# a parameter documented as `number or ndarray`: one definition per kind that is used (`<f>` for a number, `<f>_nd` for an
+# (n, 2) array of intervals); a call site picks the instance by the static kind of its argument
+POLY = ("poly",)
+DECL.update({
+    "_round": [("t", POLY, r"number or ndarray"), ("frame_size", RAT, r"number > 0")],
+    "_hierarchy_bounds": [("intervals_hier", HIER, r"list of ndarray")],
+    "_lca": [("intervals_hier", HIER, r"list of ndarray"), ("frame_size", RAT, r"number")],
+})
+POLY_KINDS = [(RAT, ""), (IVALS, "_nd")]
 # declared preconditions `p > 0`
-POSITIVE = {}
+POSITIVE = {"_round": ["frame_size"], "_lca": ["frame_size"]}
 
 
 def lean_type(t):
@@ -283,42 +298,43 @@ class Module:
         if "util" in self.assigned or "util" in self.funcs or self.imports.get("util") not in (".util", "..util", "mir_eval.util"):
             raise Unsupported("`util` is not mir_eval.util", node)
 
-    def translate(self, fname, node=None):
-        if fname in self.sigs:
-            return self.sigs[fname]
-        if fname in self.failed:
-            raise Unsupported("callee %s is outside the subset (%s)" % (fname, self.failed[fname]), node)
+    def translate(self, fname, node=None, variant=0):
+        key = fname + (POLY_KINDS[variant][1] if variant else "")
+        if key in self.sigs:
+            return self.sigs[key]
+        if key in self.failed:
+            raise Unsupported("callee %s is outside the subset (%s)" % (key, self.failed[key]), node)
         defs = self.funcs.get(fname)
         if not defs:
             raise Unsupported("no top-level function %s in hierarchy.py" % fname, node)
         if len(defs) != 1 or fname in self.assigned:
             raise Unsupported("%s is defined more than once" % fname, node)
-        if fname in self.in_progress:
+        if key in self.in_progress:
             raise Unsupported("recursive call of %s" % fname, node)
-        self.in_progress.add(fname)
+        self.in_progress.add(key)
         try:
             self.check_globals(defs[0])
-            sigs_lines = translate_def(self, defs[0])
+            sigs_lines = translate_def(self, defs[0], variant)
         except Unsupported as e:
-            self.failed[fname] = e.detail
+            self.failed[key] = e.detail
             raise
         except RecursionError:
-            self.failed[fname] = "expression too deep"
-            raise Unsupported(self.failed[fname], node)
+            self.failed[key] = "expression too deep"
+            raise Unsupported(self.failed[key], node)
         finally:
-            self.in_progress.discard(fname)
+            self.in_progress.discard(key)
         for sig, lines in sigs_lines:
             self.sigs[sig.name] = sig
             self.emitted.append((sig.name, lines))
-        return self.sigs[fname]
+        return self.sigs[key]
 
 
 # ----------------------------------------------------------------------------------------
 # one function
 
 class Body:
-    def __init__(self, module, fn, params, positive, what):
-        self.m, self.fn, self.name, self.params, self.what = module, fn, fn.name, params, what
+    def __init__(self, module, fn, params, positive, what, name=None):
+        self.m, self.fn, self.name, self.params, self.what = module, fn, name or fn.name, params, what
         self.positive0 = set(positive)
         self.locals = set(stored_names(fn.body)) | {a.arg for a in fn.args.args}
         self.ret_ty, self.ret_types = None, []
@@ -468,6 +484,15 @@ class Body:
                 raise Unsupported("defaultdict key of type %s" % show_type(kx.ty), s)
             line = "let %s : %s := (%sdictSet %s %s %s)" % (ident(x), lean_type(ty), P, ident(x), kx.term, coerce(v, ty[1], s))
             return self.bind_lines(binds) + [line] + cont(env)
+        if ty == MAT and isinstance(t.slice, ast.Tuple) and len(t.slice.elts) == 2:
+            if x not in self.owned:
+                raise Unsupported("item assignment into %s, which is not a lil_matrix built by this function" % x, s)
+            r, c = self.expr(t.slice.elts[0], env, binds), self.expr(t.slice.elts[1], env, binds)
+            v = self.expr(s.value, env, binds)
+            if r.ty != ISLICE or c.ty != ISLICE or v.ty != NAT:
+                raise Unsupported("%s[<%s>, <%s>] = <%s>" % (x, show_type(r.ty), show_type(c.ty), show_type(v.ty)), s)
+            line = "let %s : %s := (%ssetBlock %s %s %s %s)" % (ident(x), lean_type(ty), P, ident(x), r.term, c.term, v.term)
+            return self.bind_lines(binds) + [line] + cont(env)
         raise Unsupported("item assignment into a %s" % show_type(ty), s)
 
     def assign(self, target, value, env, cont, node):
@@ -484,8 +509,9 @@ class Body:
                     raise Unsupported("re-binding %s with another type" % x, node)
             env2 = dict(env)
             env2[x] = e.ty
+            keeps = self.keeps_positive(value, env)
             self.positive.discard(x)
-            if self.keeps_positive(value, env):
+            if keeps:
                 self.positive.add(x)
             if self.builds_list(value):
                 self.owned.add(x)
@@ -516,7 +542,9 @@ class Body:
 
     @staticmethod
     def builds_list(value):
+        """the value is a container this function has just built (a Python list, a lil_matrix): in-place updates allowed"""
         return (isinstance(value, ast.Call) and isinstance(value.func, ast.Name) and value.func.id == "list") \
+            or (isinstance(value, ast.Call) and dotted(value.func) == "scipy.sparse.lil_matrix") \
             or isinstance(value, (ast.List, ast.ListComp))
 
     # -- if ---------------------------------------------------------------------------------
@@ -649,8 +677,7 @@ class Body:
     def for_loop(self, s, rest, env, cont):
         binds = []
         items, pat, tenv = self.iterable(s.iter, s.target, env, binds, s)
-        if binds:
-            raise Unsupported("a loop whose iterable can raise", s)
+        pre_lines = self.bind_lines(binds)          # the iterable is evaluated once, before the first iteration
         carried, free, lname = self.loop_common(s, rest, env, list(tenv))
         env2 = dict(env)
         env2.update(tenv)
@@ -670,7 +697,7 @@ class Body:
         lines += indent(body_lines, 6)
         self.aux.append((Sig(lname, [], TUP(cty) if len(cty) > 1 else cty[0]), lines))
         call = "let %s : %s ← %s %s" % (ctuple, cret, lname, " ".join([ident(n) for n in free] + [items[0]] + [ident(n) for n in carried]))
-        return [call] + cont(dict(env))
+        return pre_lines + [call] + cont(dict(env))
 
     def iterable(self, it, target, env, binds, node):
         """-> ((items term, Lean item type), Lean pattern, {target name: type})"""
@@ -858,6 +885,8 @@ class Body:
             if not (isinstance(node.right, ast.Name) and node.right.id in self.positive):
                 raise Unsupported("division of an array by something that is not a declared-positive parameter", node)
             return E("(%smapIvals (fun _v => _v / %s) %s)" % (P, b.term, a.term), IVALS)
+        if isinstance(op, ast.Sub) and a.ty == IVALS and b.ty == IVALS:
+            return E("(%ssubIvals %s %s)" % (P, a.term, b.term), IVALS)
         a, b = self.number(a, node), self.number(b, node)
         sym = {ast.Add: "+", ast.Sub: "-", ast.Mult: "*", ast.Div: "/"}[type(op)]
         if isinstance(op, ast.Div):
@@ -994,9 +1023,16 @@ class Body:
 
     def call(self, node, env, binds):
         f = node.func
+        name = dotted(f)
+        if name == "list" and self.is_builtin("list") and len(node.args) == 1 and not node.keywords:
+            h = self.chain_chain(node.args[0])
+            if h is not None:
+                x = self.expr(h, env, binds)
+                if x.ty != HIER:
+                    raise Unsupported("itertools.chain(*list(itertools.chain(*<%s>)))" % show_type(x.ty), node)
+                return E("(%schain2 %s)" % (P, x.term), VEC(RAT))
         if any(isinstance(a, ast.Starred) for a in node.args) or any(k.arg is None for k in node.keywords):
             raise Unsupported("starred argument", node)
-        name = dotted(f)
         args = node.args
         nokw = not node.keywords
         # ---- builtins -------------------------------------------------------------------------
@@ -1011,6 +1047,11 @@ class Body:
             recv = self.expr(f.value, env, binds)
             if recv.ty == ROW and f.attr in ("toarray", "ravel") and not args and nokw:
                 return E(recv.term, ROW if f.attr == "toarray" else LEVELS)
+            if recv.ty == MAT and f.attr == "tocsr" and not args and nokw:
+                return E(recv.term, MAT)
+            if recv.ty == IVALS and f.attr == "astype" and len(args) == 1 and nokw and isinstance(args[0], ast.Name) \
+                    and args[0].id == "int" and self.is_builtin("int"):
+                return E("(%smapIvals %spyInt %s)" % (P, P, recv.term), IFRAMES)
             raise Unsupported("method .%s on a %s" % (f.attr, show_type(recv.ty)), node)
         # ---- numpy / itertools / collections --------------------------------------------------
         if name == "np.unique" and len(args) == 1:
@@ -1022,6 +1063,34 @@ class Body:
             if self.true_kw(node, ["return_index", "return_counts"]):
                 return E("(%suniqueIndexCounts %s)" % (P, x.term), TUP([LEVELS, LEVELS, LEVELS]))
             raise Unsupported("np.unique with other keywords", node)
+        if name == "np.mod" and len(args) == 2 and nokw:
+            t = self.expr(args[0], env, binds)
+            m = args[1]
+            if isinstance(m, ast.Call) and isinstance(m.func, ast.Name) and m.func.id == "float" and self.is_builtin("float") \
+                    and len(m.args) == 1 and not m.keywords:
+                m = m.args[0]
+            if not (isinstance(m, ast.Name) and m.id in self.positive and env.get(m.id) == RAT):
+                raise Unsupported("np.mod by something that is not a declared-positive parameter", node)
+            if t.ty in NUMERIC:
+                return E("(%snpMod %s %s)" % (P, coerce(t, RAT, node), ident(m.id)), RAT)
+            if t.ty == IVALS:
+                return E("(%smapIvals (fun _v => %snpMod _v %s) %s)" % (P, P, ident(m.id), t.term), IVALS)
+            raise Unsupported("np.mod of a %s" % show_type(t.ty), node)
+        if name == "np.asarray" and len(args) == 1 and nokw:
+            x = self.expr(args[0], env, binds)
+            if x.ty != IVALS:
+                raise Unsupported("np.asarray of a %s" % show_type(x.ty), node)
+            return x
+        if name == "scipy.sparse.lil_matrix" and len(args) == 1 and isinstance(args[0], ast.Tuple) and len(args[0].elts) == 2 \
+                and [k.arg for k in node.keywords] == ["dtype"] and dotted(node.keywords[0].value) == "np.uint8":
+            a, b = args[0].elts
+            if not (isinstance(a, ast.Name) and isinstance(b, ast.Name) and a.id == b.id):
+                raise Unsupported("lil_matrix of a shape that is not (n, n)", node)
+            n = self.expr(a, env, binds)
+            if n.ty not in (NAT, INT):
+                raise Unsupported("lil_matrix((<%s>, ...))" % show_type(n.ty), node)
+            tmp = self.bind(binds, "%slilZeros %s" % (P, coerce(n, INT, node)), MAT)
+            return E(tmp, MAT)
         if name == "np.sum" and len(args) == 1 and nokw:
             x = self.expr(args[0], env, binds)
             if x.ty != LEVELS:
@@ -1059,6 +1128,22 @@ class Body:
             return E("([] : %s)" % lean_type(DDICT(d.ty, d.term)), DDICT(d.ty, d.term))
         raise Unsupported("call of %s" % (name or type(f).__name__), node)
 
+    @staticmethod
+    def chain_chain(x):
+        """`itertools.chain(*list(itertools.chain(*H)))` -> H"""
+        def star(c):
+            if isinstance(c, ast.Call) and dotted(c.func) == "itertools.chain" and len(c.args) == 1 and not c.keywords \
+                    and isinstance(c.args[0], ast.Starred):
+                return c.args[0].value
+            return None
+        inner = star(x)
+        if inner is None:
+            return None
+        if isinstance(inner, ast.Call) and isinstance(inner.func, ast.Name) and inner.func.id == "list" and len(inner.args) == 1 \
+                and not inner.keywords:
+            inner = inner.args[0]
+        return star(inner)
+
     def builtin(self, fid, node, env, binds):
         args, nokw = node.args, not node.keywords
         if fid == "len" and len(args) == 1 and nokw:
@@ -1084,6 +1169,12 @@ class Body:
             if a.ty[0] != "vec":
                 raise Unsupported("list of a %s" % show_type(a.ty), node)
             return a
+        if fid in ("min", "max") and len(args) == 1 and nokw:
+            a = self.expr(args[0], env, binds)
+            if a.ty != VEC(RAT):
+                raise Unsupported("%s of a %s" % (fid, show_type(a.ty)), node)
+            tmp = self.bind(binds, "%s%s %s" % (P, "pyMin" if fid == "min" else "pyMax", a.term), RAT)
+            return E(tmp, RAT)
         if fid in ("min", "max") and len(args) == 2 and nokw:
             a, b = self.expr(args[0], env, binds), self.expr(args[1], env, binds)
             if fid == "max" and a.lit == 0 and type(a.lit) is int and b.ty in (NAT, INT):
@@ -1102,7 +1193,17 @@ class Body:
 
     def call_translated(self, fid, node, env, binds):
         args = node.args
-        sig = self.m.translate(fid, node)
+        variant = 0
+        if any(d[1] == POLY for d in DECL.get(fid, [])):
+            if not args:
+                raise Unsupported("call of %s without its array-or-number argument" % fid, node)
+            a0 = self.expr(args[0], env, [])
+            kinds = [k for k, _ in POLY_KINDS]
+            t0 = RAT if a0.ty in NUMERIC else a0.ty
+            if t0 not in kinds:
+                raise Unsupported("%s of a %s" % (fid, show_type(a0.ty)), node)
+            variant = kinds.index(t0)
+        sig = self.m.translate(fid, node, variant)
         kw = self.kwargs(node, [p[0] for p in sig.params[len(args):]])
         if len(args) > len(sig.params):
             raise Unsupported("call of %s with %d arguments" % (fid, len(args)), node)
@@ -1139,7 +1240,7 @@ def doc_lines(fn):
     return out
 
 
-def translate_def(module, fn):
+def translate_def(module, fn, variant=0):
     """-> [(Sig, lines)] in emission order (loops first)"""
     if fn.decorator_list:
         raise Unsupported("decorated function", fn)
@@ -1168,8 +1269,14 @@ def translate_def(module, fn):
                 coerce(d, ty[1] if ty[0] == "opt" else ty, fn)
                 if ty[0] == "opt":
                     d = E("(some %s)" % coerce(d, ty[1], fn), ty)
+        if ty == POLY:
+            ty = POLY_KINDS[variant][0]
         params.append((pn, ty, d))
-    b = Body(module, fn, params, POSITIVE.get(fn.name, ()), "`hierarchy.%s` (mir_eval/hierarchy.py)" % fn.name)
+    suffix = POLY_KINDS[variant][1] if variant else ""
+    what = "`hierarchy.%s` (mir_eval/hierarchy.py)" % fn.name
+    if suffix:
+        what += ", the instance for an (n, 2) array argument"
+    b = Body(module, fn, params, POSITIVE.get(fn.name, ()), what, name=fn.name + suffix)
     return b.translate()
 
 
@@ -1179,7 +1286,7 @@ def translate_def(module, fn):
 def val_decoder(ty, v, default=None):
     dec = {RAT: "Val.asRat?", NAT: "Val.asNat?", INT: "Val.asInt?", BOOL: "Val.asBool?", LEVELS: "Val.asNats?",
            MAT: P + "asMat?", OPT(NAT): P + "asOptNat?", HIER: P + "asHier?", LABHIER: P + "asLabels?",
-           OPT(RAT): "Val.asOptRat?"}.get(ty)
+           OPT(RAT): "Val.asOptRat?", IVALS: "Val.asRatPairs?"}.get(ty)
     if dec is None:
         raise Unsupported("no protocol decoder for %s" % show_type(ty))
     if default is not None and ty[0] != "opt":
